@@ -44,6 +44,9 @@ EXPLANATION += " Added: (R7) VASP cell and Cartesian positions carry scaling fac
 TECHNIQUE += '; whole evaluation of the VASP header reader for the coordinate mode'
 EXPLANATION += ' R4: the VASP header reader is interpreted as a whole on model files for every first character of the mode line, with and without a selective-dynamics line; Cartesian and direct reading give different positions of the model atom.'
 # --- end metadata round-3 twins
+# --- metadata added for batch 9
+EXPLANATION += ' Added: (R9) cube lengths and the angstrom flag (header pair and loader evaluated); (R10) the WFX gradient section is written as dE/dR without a change of sign.'
+# --- end metadata batch 9
 TRUSTED = ["CPython ast parser", "frozen unit oracle (DESIGN.md Appendix A; format specifications)", "frozen CODATA 2018 values in spec/codata.json"]
 
 # non-plain reader slots: (module, key path) -> expected tag text.  Everything else must be plain.
